@@ -3,11 +3,13 @@ package main
 
 import (
 	"context"
+	"errors"
 	"log"
 	"os"
 	"os/signal"
 	"syscall"
 
+	"github.com/gokrazy/rsync/internal/rsyncopts"
 	"github.com/gokrazy/rsync/rsynccmd"
 )
 
@@ -20,6 +22,10 @@ func main() {
 	cmd.Stdout = os.Stdout
 	cmd.Stderr = os.Stderr
 	if _, err := cmd.Run(ctx); err != nil {
+		var exit *rsyncopts.ExitError
+		if errors.As(err, &exit) {
+			os.Exit(exit.Code) // e.g. --help, --version
+		}
 		log.Fatal(err)
 	}
 }
